@@ -171,7 +171,27 @@ def parse_log(kind, data: bytes):
     return out
 
 
+APP_PGN = 130994          # a PGN neither the database nor the stub codec knows: only the application's own client subclass can send it
+
+
+def app_subclass(cls):
+    """An application's subclass of a gateway client that knows how to send one more PGN: it overrides the client's encoding hook
+    and hands that message to the library's framing under another number. For everything else it is the library's client."""
+    class AppGateway(cls):
+        def _encode_impl(self, m):
+            if m.PGN == APP_PGN:
+                m2 = copy.copy(m)
+                m2.PGN, m2.id = STUB_PGN, "verifStub"
+                return super()._encode_impl(m2)
+            return super()._encode_impl(m)
+    AppGateway.__name__ = cls.__name__
+    return AppGateway
+
+
 def reference_packets(kind, m):
+    if m.PGN == APP_PGN:
+        m = copy.copy(m)
+        m.PGN, m.id = STUB_PGN, "verifStub"
     enc = NMEA2000Encoder()
     pk = {"ebyte": enc.encode_ebyte, "waveshare": enc.encode_usb, "yd": enc.encode_yacht_devices}[kind](copy.deepcopy(m))
     return [d for _, d in parse_log(kind, b"".join(pk))]
@@ -183,7 +203,7 @@ def norm(frames, fast):
     return [bytes([f[0] & 0x1F]) + f[1:] for f in frames]
 
 
-def concurrent_session(kind, msgs, pause_plan, stagger, after_reconnect=False, bystander=False):
+def concurrent_session(kind, msgs, pause_plan, stagger, after_reconnect=False, bystander=False, subclass=None):
     async def scenario(sim):
         sim.spawn("connect")
         await asyncio.sleep(0.1)
@@ -209,7 +229,7 @@ def concurrent_session(kind, msgs, pause_plan, stagger, after_reconnect=False, b
         await asyncio.sleep(1.0)
         sim.sent_from = base
         await sim.close_guarded()
-    return simgw.run_session(kind, scenario, bystander=bystander)
+    return simgw.run_session(kind, scenario, bystander=bystander, subclass=subclass)
 
 
 def judge_concurrent(sim, stats, kind, msgs, pause_plan, stagger, acc, fast_of, after_reconnect=False):
@@ -312,6 +332,19 @@ def run_concurrent(spec, acc):
                 simgw.judge_bystander(sim, acc, {"client": kind, "messages": [[m.PGN, m.source] for m in msgs]})
             if rep % 10 == 0:
                 acc.sample({"client": kind, "messages": [[m.PGN, m.source, len(reference_packets(kind, m))] for m in msgs], "pause_plan": plan[:12], "stagger": stagger})
+        # (b2) the client is an application's subclass that can send one PGN more than the library (it overrides the encoding
+        # hook): its messages are written like any other, alone and next to ordinary ones
+        for rep in range((6 if quick else 60) if box["_seam"] else 0):
+            msgs = []
+            for i in range(rng.randint(1, 3)):
+                src = 60 + i
+                box[src] = bytes((src + 5 * k) % 256 for k in range(rng.choice([5, 8, 13, 20, 40])))
+                msgs.append(NMEA2000Message(PGN=APP_PGN if (i + rep) % 2 == 0 else STUB_PGN, id="appOwn" if (i + rep) % 2 == 0 else "verifStub", priority=3, source=src, destination=255))
+            plan = [rng.choice([0, 0, 1, 2]) for _ in range(60)]
+            stagger = [rng.choice([0, 1, 3]) for _ in msgs]
+            sim, stats = concurrent_session(kind, msgs, plan, stagger, subclass=app_subclass)
+            acc.count("sessions_with_an_application_subclass_of_the_client")
+            judge_concurrent(sim, stats, kind, msgs, plan, stagger, acc, lambda m_: True)
         # (c) a sender that stops: the task awaiting send() is cancelled while its message is partly written (parked in
         # drain()), another send() is queued behind it. What was written of the first message stays a prefix; nothing of it
         # may follow once the second message has started, and the second goes out whole.
